@@ -278,6 +278,15 @@ def wf(p, why=None):
                 return no("succ %s of %s not an instance" % (s, t))
             if P[s].count((fs, t, ft)) != S[t].count(e):
                 return no("edge %s -> %s: views differ (succ side)" % (t, s))
+    for t in ids:
+        pt = [e[1] for e in P[t]]
+        stt = [e[1] for e in S[t]]
+        for q in set(pt):
+            if [e[1] for e in S[q]].count(t) != pt.count(q):
+                return no("multiplicity of %s -> %s differs" % (q, t))
+        for s in set(stt):
+            if [e[1] for e in P[s]].count(t) != stt.count(s):
+                return no("multiplicity of %s -> %s differs" % (t, s))
     # acyclic
     placed, todo = set(), list(ids)
     while todo:
